@@ -220,7 +220,7 @@ func ruleNum5(c *Ctx, r *Reporter) {
 	}
 	two53 := math.Ldexp(1, 53)
 	two63 := math.Ldexp(1, 63)
-	nI2F, nF2I := 0, 0
+	nI2F, nF2I, nNarrow := 0, 0, 0
 	seen := map[string]int{}
 	var fns []*ssa.Function
 	for fn := range scope {
@@ -249,6 +249,21 @@ func ruleNum5(c *Ctx, r *Reporter) {
 				lo, hi := numBounds(fn, same, cv.Block())
 				ok := lo.has && lo.val >= -two53 && hi.has && hi.val <= two53
 				r.check(ok, key, c.pos(cv.Pos()), "the operand is confined to [-2^53, 2^53]: every such integer is a float64", fmt.Sprintf("the operand is not confined to [-2^53, 2^53] (lower bound: %s, upper bound: %s): larger magnitudes are rounded, so an int64 and a number that differs from it compare equal", lo, hi))
+			case intWidth(from) > 0 && intWidth(to) > 0 && intWidth(to) < intWidth(from):
+				if fromLibraryCall(cv.X) {
+					// e.g. the exponent returned by Decimal128.BigInt(): bounded by the library's own domain, not an operand
+					return
+				}
+				nNarrow++
+				key := fmt.Sprintf("bsonkit.%s:integer narrowing", fn.Name())
+				seen[key]++
+				if seen[key] > 1 {
+					key = fmt.Sprintf("%s #%d", key, seen[key])
+				}
+				lo, hi := numBounds(fn, same, cv.Block())
+				lim := math.Ldexp(1, intWidth(to)-1)
+				ok := lo.has && lo.val >= -lim && hi.has && (hi.val < lim || (hi.val == lim && hi.strict))
+				r.check(ok, key, c.pos(cv.Pos()), "the operand is confined to the range of the narrower type", fmt.Sprintf("a %d-bit integer is narrowed to %d bits without being confined to that range (lower bound: %s, upper bound: %s): large values wrap around and are ordered as small ones", intWidth(from), intWidth(to), lo, hi))
 			case from == types.Float64 && (to == types.Int64 || to == types.Int):
 				nF2I++
 				key := fmt.Sprintf("bsonkit.%s:float64 to int64", fn.Name())
@@ -264,7 +279,7 @@ func ruleNum5(c *Ctx, r *Reporter) {
 	}
 	r.guard(nI2F, 1, "int64 to float64 conversions in the comparison code")
 	r.guard(nF2I, 1, "float64 to int64 conversions in the comparison code")
-	r.trivial("scope", "-", fmt.Sprintf("%d bsonkit functions reachable from Compare", len(scope)))
+	r.trivial("scope", "-", fmt.Sprintf("%d bsonkit functions reachable from Compare, %d narrowing integer conversions", len(scope), nNarrow))
 }
 
 func sortFuncs(fns []*ssa.Function) {
@@ -1530,4 +1545,1163 @@ func ruleFlag2(c *Ctx, r *Reporter) {
 	}
 	r.ok("mongokit+bsonkit:search flags", "-", fmt.Sprintf("%d functions, %d loops examined", n, loops))
 	r.guard(loops, 100, "loops in mongokit and bsonkit")
+}
+
+// ---- TXN-4: Begin hands out only transactions it has just created -----------------------
+
+func init() {
+	register(&Rule{ID: "TXN-4", Doc: "Engine.Begin never hands out an existing transaction: every successful return yields the result of a NewTransaction call made in Begin (directly, or via e.txn which was just assigned that result); a write begun inside a session transaction is refused, not joined - the direct Begin/Commit callers (index and drop calls) would otherwise commit the whole session transaction mid-way", Run: ruleTxn4})
+}
+
+func ruleTxn4(c *Ctx, r *Reporter) {
+	fn := c.lookupSSA(pkgLungo, "Engine.Begin")
+	newTxn := c.lookupFunc(pkgLungo, "NewTransaction")
+	txnF := c.field(pkgLungo, "Engine", "txn")
+	if fn == nil || newTxn == nil || txnF == nil {
+		r.bad("anchor:Engine.Begin", "-", "not found")
+		return
+	}
+	isNew := func(v ssa.Value) bool {
+		call, ok := v.(*ssa.Call)
+		return ok && calleeObj(&call.Call) == newTxn
+	}
+	n := 0
+	for _, ret := range returnsOf(fn) {
+		if ret.Block() == fn.Recover || len(ret.Results) != 2 {
+			continue
+		}
+		if !isNilConst(retVal(ret, 1)) {
+			continue
+		}
+		n++
+		v := retVal(ret, 0)
+		key := fmt.Sprintf("Engine.Begin:successful return #%d", n)
+		ok := isNew(v)
+		if u, isLoad := v.(*ssa.UnOp); !ok && isLoad && u.Op == token.MUL {
+			if fa, isFA := u.X.(*ssa.FieldAddr); isFA && structFieldOf(fa) == txnF {
+				// the dominating store to e.txn closest to the load must store a NewTransaction result
+				var last *ssa.Store
+				allInstrs(fn, func(in ssa.Instruction) {
+					if st, isSt := in.(*ssa.Store); isSt {
+						if fa2, ok2 := st.Addr.(*ssa.FieldAddr); ok2 && structFieldOf(fa2) == txnF && instrDominates(st, u) {
+							if last == nil || instrDominates(last, st) {
+								last = st
+							}
+						}
+					}
+				})
+				ok = last != nil && isNew(last.Val)
+			}
+		}
+		r.check(ok, key, c.pos(ret.Pos()), "returns a transaction created by NewTransaction in this call", "returns a transaction that was not created in this call (e.g. the session's own transaction): its later Commit/Abort by the caller ends a transaction the caller does not own")
+	}
+	r.guard(n, 2, "successful returns of Engine.Begin")
+}
+
+func intWidth(k types.BasicKind) int {
+	switch k {
+	case types.Int8, types.Uint8:
+		return 8
+	case types.Int16, types.Uint16:
+		return 16
+	case types.Int32, types.Uint32:
+		return 32
+	case types.Int64, types.Uint64, types.Int, types.Uint:
+		return 64
+	}
+	return 0
+}
+
+// ---- ASSUME-1: the modelling assumptions about unsafe and reflect still hold -----------
+
+func init() {
+	register(&Rule{ID: "ASSUME-1", Doc: "the analyses do not model unsafe and reflect; this rule pins down where the repository uses them: unsafe only as unsafe.Pointer converted to uintptr for the identity tie-break of bsonkit.Order/Index (never unsafe.String/Slice/Add or a conversion back to a pointer), reflect only in bsonkit.DecodeList and lungo.assertOptions", Run: ruleAssume1})
+}
+
+func ruleAssume1(c *Ctx, r *Reporter) {
+	allowedReflect := map[string]string{
+		pkgBsonkit + ".DecodeList":  "grows the caller's result slice; the documents themselves go through Decode/Transfer",
+		pkgLungo + ".assertOptions": "nil-checks of option struct fields",
+	}
+	n := 0
+	for _, fn := range c.repoFuncs() {
+		top := outermost(fn)
+		allInstrs(fn, func(in ssa.Instruction) {
+			// conversions involving unsafe.Pointer
+			if cv, ok := in.(*ssa.Convert); ok {
+				fromU := isUnsafePointer(cv.X.Type())
+				toU := isUnsafePointer(cv.Type())
+				if fromU || toU {
+					n++
+					key := funcName(top) + ":unsafe.Pointer conversion"
+					fromPtr := false
+					if _, ok := cv.X.Type().Underlying().(*types.Pointer); ok {
+						fromPtr = true
+					}
+					toUintptr := false
+					if b, ok := cv.Type().Underlying().(*types.Basic); ok && b.Kind() == types.Uintptr {
+						toUintptr = true
+					}
+					okUse := (toU && fromPtr) || (fromU && toUintptr)
+					r.check(okUse, key, c.pos(cv.Pos()), "pointer -> unsafe.Pointer -> uintptr (an address used as an ordering key only)", "unsafe.Pointer is converted to something other than uintptr (or created from a non-pointer): memory is reinterpreted or aliased behind the back of every ownership and sharing rule")
+				}
+			}
+			if call, ok := in.(ssa.CallInstruction); ok {
+				if b, ok := call.Common().Value.(*ssa.Builtin); ok && (b.Name() == "String" || b.Name() == "StringData" || b.Name() == "Slice" || b.Name() == "SliceData" || b.Name() == "Add") {
+					// the capitalised builtins are the functions of package unsafe (universe builtins are lower case)
+					n++
+					r.bad(funcName(top)+":unsafe."+b.Name(), c.pos(in.Pos()), "unsafe."+b.Name()+" creates a value that aliases memory owned by something else (e.g. a string over a reused buffer): the copy the surrounding code relies on is gone")
+				}
+				if f := calleeObj(call.Common()); f != nil && f.Pkg() != nil && f.Pkg().Path() == "reflect" {
+					name := fnPkgPath(top) + "." + top.Name()
+					if _, ok := allowedReflect[name]; !ok {
+						n++
+						r.bad(funcName(top)+":reflect."+f.Name(), c.pos(in.Pos()), "reflection outside the two listed helpers: the static analyses do not see what it reads or writes")
+					}
+				}
+			}
+		})
+	}
+	r.guard(n, 2, "unsafe.Pointer conversions")
+}
+
+func isUnsafePointer(t types.Type) bool {
+	b, ok := t.Underlying().(*types.Basic)
+	return ok && b.Kind() == types.UnsafePointer
+}
+
+// ---- TAB-11: every namespace is written and every stored namespace is read back ---------
+
+func init() {
+	register(&Rule{ID: "TAB-11", Doc: "no namespace is skipped by the file format: in BuildFile every iteration of the namespace loop reaches the store into file.Namespaces, and in File.BuildCatalog every iteration either fails the load or reaches the store into catalog.Namespaces (an empty collection still carries its index definitions)", Run: ruleTab11})
+}
+
+func ruleTab11(c *Ctx, r *Reporter) {
+	n := 0
+	for _, name := range []string{"BuildFile", "File.BuildCatalog"} {
+		fn := c.lookupSSA(pkgLungo, name)
+		if fn == nil {
+			r.bad("anchor:"+name, "-", "not found")
+			continue
+		}
+		for _, lp := range namespaceLoops(c, fn) {
+			var loopKey ssa.Value
+			if refs := lp.next.Referrers(); refs != nil {
+				for _, ref := range *refs {
+					if ex, ok := ref.(*ssa.Extract); ok && ex.Index == 1 {
+						loopKey = ex
+					}
+				}
+			}
+			// the table store: a MapUpdate keyed by the loop key
+			isTableStore := func(in ssa.Instruction) bool {
+				mu, ok := in.(*ssa.MapUpdate)
+				return ok && lp.body[mu.Block()] && loopKey != nil && dependsOn(mu.Key, loopKey, map[ssa.Value]bool{})
+			}
+			found := false
+			allInstrs(fn, func(in ssa.Instruction) {
+				if isTableStore(in) {
+					found = true
+				}
+			})
+			n++
+			key := name + ":every namespace reaches the table"
+			if !found {
+				r.bad(key, c.pos(lp.next.Pos()), "no store into the namespace table keyed by the loop key")
+				continue
+			}
+			// walk from the body entry: reaching the loop header again without the store is a skipped namespace
+			hdr := lp.next.Block()
+			start := hdr.Succs[0]
+			skipped := false
+			seen := map[*ssa.BasicBlock]bool{}
+			var walk func(b *ssa.BasicBlock)
+			walk = func(b *ssa.BasicBlock) {
+				if skipped || seen[b] {
+					return
+				}
+				seen[b] = true
+				for _, in := range b.Instrs {
+					if isTableStore(in) {
+						return
+					}
+				}
+				for _, s := range b.Succs {
+					if s == hdr {
+						skipped = true
+						return
+					}
+					if lp.body[s] {
+						walk(s)
+					}
+				}
+			}
+			walk(start)
+			r.check(!skipped, key, c.pos(lp.next.Pos()), "every iteration that continues the loop has stored its namespace", "an iteration can continue with the next namespace without storing this one: the skipped namespace (e.g. an empty collection with its unique and TTL indexes) is missing after a reload")
+		}
+	}
+	r.guard(n, 2, "namespace loops in BuildFile/BuildCatalog")
+}
+
+// fromLibraryCall: the value is (a component of) the result of a call into a package outside the repository.
+func fromLibraryCall(v ssa.Value) bool {
+	if ex, ok := v.(*ssa.Extract); ok {
+		v = ex.Tuple
+	}
+	call, ok := v.(*ssa.Call)
+	if !ok {
+		return false
+	}
+	f := calleeObj(&call.Call)
+	return f != nil && f.Pkg() != nil && !strings.HasPrefix(f.Pkg().Path(), pkgLungo)
+}
+
+// ---- REC-1: mode flags survive recursion ------------------------------------------------
+
+func init() {
+	register(&Rule{ID: "REC-1", Doc: "path traversal modes are uniform along a path: every self-recursive function of bsonkit/mongokit (bsonkit.get, bsonkit.put) passes each of its boolean mode parameters (collect, compact, prepend) unchanged at every recursive call site, so a dotted path fans out over arrays the same way before and after a positional segment", Run: ruleRec1})
+	register(&Rule{ID: "UPD-3", Doc: "$min and $max replace only on strict improvement: in the functions registered as $min/$max the bsonkit.Put of the operand is guarded by bsonkit.Compare(current, operand) > 0 resp. < 0 (strict), so an operand that compares equal - e.g. the same number in another numeric type - leaves the stored value and its type alone and the update reports no modification", Run: ruleUpd3})
+	register(&Rule{ID: "WIN-6", Doc: "distinct collects element-wise: mongokit.Distinct calls bsonkit.Collect with compact, merge, flatten and distinct all true (missing values dropped, arrays of embedded documents merged, array elements individually, each value once in ascending order)", Run: ruleWin6})
+}
+
+func ruleRec1(c *Ctx, r *Reporter) {
+	sites, params := 0, 0
+	for _, fn := range c.repoFuncs() {
+		p := fnPkgPath(fn)
+		if fn.Parent() != nil || (p != pkgBsonkit && p != pkgMongokit) {
+			continue
+		}
+		for pi, prm := range fn.Params {
+			b, ok := prm.Type().Underlying().(*types.Basic)
+			if !ok || b.Kind() != types.Bool {
+				continue
+			}
+			n := 0
+			bad := ""
+			for _, g := range withClosures(fn) {
+				allInstrs(g, func(in ssa.Instruction) {
+					ci, ok := in.(ssa.CallInstruction)
+					if !ok || ci.Common().StaticCallee() != fn || pi >= len(ci.Common().Args) {
+						return
+					}
+					n++
+					a := ci.Common().Args[pi]
+					same := a == ssa.Value(prm)
+					if fv, ok := a.(*ssa.FreeVar); ok && fv.Name() == prm.Name() {
+						same = true
+					}
+					if !same && bad == "" {
+						bad = fmt.Sprintf("the recursive call at %s passes %s for %s", c.pos(in.Pos()), a.Name(), prm.Name())
+						if cst, ok := a.(*ssa.Const); ok {
+							bad = fmt.Sprintf("the recursive call at %s passes the constant %s for %s", c.pos(in.Pos()), cst.Value, prm.Name())
+						}
+					}
+				})
+			}
+			if n == 0 {
+				continue
+			}
+			params++
+			sites += n
+			r.check(bad == "", fmt.Sprintf("%s:mode %s is passed down unchanged", funcName(fn), prm.Name()), c.pos(fn.Pos()), fmt.Sprintf("%d recursive call sites pass it unchanged", n), bad+": the rest of the path is traversed in another mode than its beginning")
+		}
+	}
+	r.guard(params, 3, "boolean mode parameters of self-recursive functions")
+	r.guard(sites, 8, "recursive call sites")
+}
+
+func ruleUpd3(c *Ctx, r *Reporter) {
+	regs := readRegistries(c)
+	putF := c.lookupFunc(pkgBsonkit, "Put")
+	cmpF := c.lookupFunc(pkgBsonkit, "Compare")
+	getF := c.lookupFunc(pkgBsonkit, "Get")
+	if putF == nil || cmpF == nil || getF == nil {
+		r.bad("anchor:bsonkit.Put/Compare/Get", "-", "not found")
+		return
+	}
+	n := 0
+	for _, it := range []struct {
+		op   string
+		sign int // sign of Compare(current, operand) that must hold for the replacement
+	}{{"$min", 1}, {"$max", -1}} {
+		var fn *ssa.Function
+		for _, reg := range regs {
+			if f := reg[it.op]; f != nil {
+				fn = f
+			}
+		}
+		if fn == nil || len(fn.Params) < 5 {
+			r.bad("anchor:"+it.op, "-", "operator not registered")
+			continue
+		}
+		operand := fn.Params[len(fn.Params)-1]
+		// the comparison of the current value with the operand
+		var cmp *ssa.Call
+		swapped := false
+		allInstrs(fn, func(in ssa.Instruction) {
+			call, ok := in.(*ssa.Call)
+			if !ok || calleeObj(&call.Call) != cmpF {
+				return
+			}
+			a0, a1 := stripValue(call.Call.Args[0]), stripValue(call.Call.Args[1])
+			isCur := func(v ssa.Value) bool {
+				g, ok := v.(*ssa.Call)
+				return ok && calleeObj(&g.Call) == getF
+			}
+			switch {
+			case isCur(a0) && a1 == ssa.Value(operand):
+				cmp, swapped = call, false
+			case isCur(a1) && a0 == ssa.Value(operand):
+				cmp, swapped = call, true
+			}
+		})
+		key := it.op + ":replaces only on strict improvement"
+		if cmp == nil {
+			r.bad(key, c.pos(fn.Pos()), "no bsonkit.Compare of the current value with the operand")
+			continue
+		}
+		want := it.sign
+		if swapped {
+			want = -want
+		}
+		// every Put that is reachable from the comparison must sit behind the strict test
+		puts := 0
+		bad := ""
+		allInstrs(fn, func(in ssa.Instruction) {
+			put, ok := in.(*ssa.Call)
+			if !ok || calleeObj(&put.Call) != putF || !instrReaches(cmp, put) {
+				return
+			}
+			puts++
+			strict := false
+			allInstrs(fn, func(x ssa.Instruction) {
+				iff, ok := x.(*ssa.If)
+				if !ok {
+					return
+				}
+				bo, ok := iff.Cond.(*ssa.BinOp)
+				if !ok || bo.X != ssa.Value(cmp) {
+					return
+				}
+				k, okK := constInt(bo.Y)
+				if !okK {
+					return
+				}
+				for i, s := range iff.Block().Succs {
+					if !(s == put.Block() || s.Dominates(put.Block())) || len(s.Preds) != 1 {
+						continue
+					}
+					op := bo.Op
+					if i == 1 {
+						switch op {
+						case token.LSS:
+							op = token.GEQ
+						case token.LEQ:
+							op = token.GTR
+						case token.GTR:
+							op = token.LEQ
+						case token.GEQ:
+							op = token.LSS
+						default:
+							continue
+						}
+					}
+					// strict sign test: > 0, >= 1 (positive); < 0, <= -1 (negative)
+					pos := (op == token.GTR && k == 0) || (op == token.GEQ && k == 1)
+					neg := (op == token.LSS && k == 0) || (op == token.LEQ && k == -1)
+					if (want > 0 && pos) || (want < 0 && neg) {
+						strict = true
+					}
+				}
+			})
+			if !strict && bad == "" {
+				bad = fmt.Sprintf("the Put at %s is not guarded by a strict sign test of the comparison", c.pos(put.Pos()))
+			}
+		})
+		n++
+		if puts == 0 {
+			r.bad(key, c.pos(cmp.Pos()), "no bsonkit.Put after the comparison")
+			continue
+		}
+		r.check(bad == "", key, c.pos(cmp.Pos()), fmt.Sprintf("%d Put(s) behind the strict test", puts), bad+": an operand that compares equal (the same number in another numeric type) overwrites the stored value, changing its type and reporting a modification")
+	}
+	r.guard(n, 2, "$min/$max operators")
+}
+
+func ruleWin6(c *Ctx, r *Reporter) {
+	fn := c.lookupSSA(pkgMongokit, "Distinct")
+	collF := c.lookupFunc(pkgBsonkit, "Collect")
+	if fn == nil || collF == nil {
+		r.bad("anchor:mongokit.Distinct", "-", "not found")
+		return
+	}
+	n := 0
+	allInstrs(fn, func(in ssa.Instruction) {
+		call, ok := in.(*ssa.Call)
+		if !ok || calleeObj(&call.Call) != collF {
+			return
+		}
+		n++
+		sig := call.Call.Signature()
+		for i := 2; i < len(call.Call.Args); i++ {
+			name := sig.Params().At(i).Name()
+			v, isConst := constBool(call.Call.Args[i])
+			r.check(isConst && v, "mongokit.Distinct:Collect "+name, c.pos(call.Pos()), name+" = true", name+" is not the constant true: distinct no longer returns each value at the path (array elements individually, nested arrays merged) exactly once in ascending order")
+		}
+	})
+	r.guard(n, 1, "bsonkit.Collect call in mongokit.Distinct")
+}
+
+// ---- PROJ-3: an inclusion projection copies every present value ---------------------------
+
+func init() {
+	register(&Rule{ID: "PROJ-3", Doc: "inclusion copies what is there: in the inclusion loop of mongokit.Project an iteration may go on to the next path without bsonkit.Put(res, path, Get(doc, path)) only when it established that the value is bsonkit.Missing or that the path is marked in state.skip; any other reason to skip (e.g. the value being null) drops a stored value from the result", Run: ruleProj3})
+}
+
+// innermostLoopHeader: the header of the innermost natural loop containing b (nil if none).
+func innermostLoopHeader(b *ssa.BasicBlock) *ssa.BasicBlock {
+	for h := b; h != nil; h = h.Idom() {
+		isHdr := false
+		for _, p := range h.Preds {
+			if h.Dominates(p) {
+				isHdr = true
+			}
+		}
+		if !isHdr {
+			continue
+		}
+		// b must reach h again without leaving: b reaches one of h's latches
+		reach := blockReach([]*ssa.BasicBlock{b}, map[*ssa.BasicBlock]bool{h: true})
+		for _, p := range h.Preds {
+			if h.Dominates(p) && (reach[p] || p == b) {
+				return h
+			}
+		}
+	}
+	return nil
+}
+
+func ruleProj3(c *Ctx, r *Reporter) {
+	fn := c.lookupSSA(pkgMongokit, "Project")
+	putF := c.lookupFunc(pkgBsonkit, "Put")
+	getF := c.lookupFunc(pkgBsonkit, "Get")
+	missing := c.lookupVar(pkgBsonkit, "Missing")
+	if fn == nil || putF == nil || getF == nil || missing == nil {
+		r.bad("anchor:mongokit.Project", "-", "not found")
+		return
+	}
+	isMissing := func(v ssa.Value) bool {
+		if u, ok := stripValue(v).(*ssa.UnOp); ok && u.Op == token.MUL {
+			if g, ok := u.X.(*ssa.Global); ok && g.Object() == missing {
+				return true
+			}
+		}
+		return false
+	}
+	// the copying Put: value is the result of Get(doc, <same path>)
+	var put *ssa.Call
+	var get *ssa.Call
+	allInstrs(fn, func(in ssa.Instruction) {
+		call, ok := in.(*ssa.Call)
+		if !ok || calleeObj(&call.Call) != putF {
+			return
+		}
+		g, ok := stripValue(call.Call.Args[2]).(*ssa.Call)
+		if !ok || calleeObj(&g.Call) != getF {
+			return
+		}
+		if innermostLoopHeader(call.Block()) != nil && (g.Call.Args[1] == call.Call.Args[1] || sameSource(g.Call.Args[1], call.Call.Args[1])) {
+			put, get = call, g
+		}
+	})
+	if put == nil {
+		r.bad("Project:inclusion copy", c.pos(fn.Pos()), "no Put(res, path, Get(doc, path)) inside a loop found")
+		return
+	}
+	hdr := innermostLoopHeader(put.Block())
+	// body entry: the successor of the header that dominates the Get
+	var start *ssa.BasicBlock
+	for _, s := range hdr.Succs {
+		if s == get.Block() || s.Dominates(get.Block()) {
+			start = s
+		}
+	}
+	if start == nil {
+		r.unk("Project:inclusion copy", c.pos(put.Pos()), "cannot locate the loop body")
+		return
+	}
+	paths, ends, trunc := enumPaths(start, hdr, func(b *ssa.BasicBlock) bool { return b == hdr || b == put.Block() }, 4096)
+	if trunc {
+		r.unk("Project:inclusion copy", c.pos(put.Pos()), "too many paths")
+		return
+	}
+	nSkip, nCopy := 0, 0
+	bad := ""
+	for pi, p := range paths {
+		switch ends[pi] {
+		case put.Block():
+			nCopy++
+			continue
+		case hdr:
+		default:
+			continue
+		}
+		nSkip++
+		justified := false
+		var why []string
+		for _, d := range p {
+			// value == Missing established
+			if bo, ok := d.cond.(*ssa.BinOp); ok && (bo.Op == token.EQL || bo.Op == token.NEQ) {
+				var other ssa.Value
+				switch {
+				case isMissing(bo.X):
+					other = bo.Y
+				case isMissing(bo.Y):
+					other = bo.X
+				}
+				if other != nil && stripValue(other) == ssa.Value(get) && (bo.Op == token.EQL) == d.taken {
+					justified = true
+				}
+				if other == nil && (stripValue(bo.X) == ssa.Value(get) || stripValue(bo.Y) == ssa.Value(get)) && (bo.Op == token.EQL) == d.taken {
+					why = append(why, "the value equals something other than Missing")
+				}
+			}
+			// state.skip[path] (a map lookup used as condition) true
+			v := d.cond
+			if ex, ok := v.(*ssa.Extract); ok {
+				v = ex.Tuple
+			}
+			if lk, ok := v.(*ssa.Lookup); ok && d.taken {
+				if _, isMap := lk.X.Type().Underlying().(*types.Map); isMap {
+					justified = true
+				}
+			}
+		}
+		if !justified && bad == "" {
+			bad = "an iteration goes on without copying the value although it is neither Missing nor marked to be skipped"
+			if len(why) > 0 {
+				bad += " (" + why[0] + ")"
+			}
+		}
+	}
+	if nCopy == 0 {
+		r.bad("Project:inclusion copy", c.pos(put.Pos()), "no path through the loop body reaches the copy")
+		return
+	}
+	r.check(bad == "", "Project:inclusion copy", c.pos(put.Pos()), fmt.Sprintf("%d copying and %d skipping paths; every skip is justified by Missing or state.skip", nCopy, nSkip), bad+": an included field that holds such a value (null) is absent from the projected document")
+}
+
+// ---- PROJ-4: what a projecting call hands out has been through the projection ------------
+
+func init() {
+	register(&Rule{ID: "PROJ-4", Doc: "no result path bypasses the projection: in every driver Collection method that calls mongokit.Project / ProjectList, each document (list) stored into the returned SingleResult.doc / Cursor.list is the variable the projection result is assigned to (its phi cone contains the projection call's result), so no branch - e.g. the upsert branch of FindOneAndUpdate - returns the unprojected stored document", Run: ruleProj4})
+}
+
+func ruleProj4(c *Ctx, r *Reporter) {
+	collT := c.lookupType(pkgLungo, "Collection")
+	projF := c.lookupFunc(pkgMongokit, "Project")
+	projLF := c.lookupFunc(pkgMongokit, "ProjectList")
+	docF := c.field(pkgLungo, "SingleResult", "doc")
+	listF := c.field(pkgLungo, "Cursor", "list")
+	if collT == nil || projF == nil || projLF == nil || docF == nil || listF == nil {
+		r.bad("anchor:Collection/Project/SingleResult.doc/Cursor.list", "-", "not found")
+		return
+	}
+	n := 0
+	for i := 0; i < collT.NumMethods(); i++ {
+		fn := c.ssaFunc(collT.Method(i))
+		if fn == nil {
+			continue
+		}
+		var proj *ssa.Call
+		allInstrs(fn, func(in ssa.Instruction) {
+			if call, ok := in.(*ssa.Call); ok {
+				if f := calleeObj(&call.Call); f == projF || f == projLF {
+					proj = call
+				}
+			}
+		})
+		if proj == nil {
+			continue
+		}
+		projRes := tupleResult(proj, 0)
+		var inCone func(v ssa.Value, seen map[ssa.Value]bool) bool
+		inCone = func(v ssa.Value, seen map[ssa.Value]bool) bool {
+			if v == nil || seen[v] {
+				return false
+			}
+			seen[v] = true
+			if v == projRes || v == ssa.Value(proj) {
+				return true
+			}
+			switch x := v.(type) {
+			case *ssa.Phi:
+				for _, e := range x.Edges {
+					if inCone(e, seen) {
+						return true
+					}
+				}
+			case *ssa.UnOp:
+				// an element of the projected list
+				if ia, ok := x.X.(*ssa.IndexAddr); ok && x.Op == token.MUL {
+					return inCone(ia.X, seen)
+				}
+				// a local cell: any store of the projection result into it
+				if a, ok := x.X.(*ssa.Alloc); ok && x.Op == token.MUL {
+					if refs := a.Referrers(); refs != nil {
+						for _, ref := range *refs {
+							if st, ok := ref.(*ssa.Store); ok && st.Addr == a && inCone(st.Val, seen) {
+								return true
+							}
+						}
+					}
+				}
+			}
+			return false
+		}
+		stores := 0
+		bad := ""
+		allInstrs(fn, func(in ssa.Instruction) {
+			st, ok := in.(*ssa.Store)
+			if !ok {
+				return
+			}
+			fa, ok := st.Addr.(*ssa.FieldAddr)
+			if !ok || (structFieldOf(fa) != docF && structFieldOf(fa) != listF) || isNilConst(st.Val) {
+				return
+			}
+			stores++
+			if !inCone(st.Val, map[ssa.Value]bool{}) && bad == "" {
+				bad = fmt.Sprintf("the result built at %s carries a value that never went through the projection", c.pos(st.Pos()))
+			}
+		})
+		n++
+		key := funcName(fn) + ":results are projected"
+		if stores == 0 {
+			r.bad(key, c.pos(proj.Pos()), "the method projects but stores no document into its result")
+			continue
+		}
+		r.check(bad == "", key, c.pos(proj.Pos()), fmt.Sprintf("%d result store(s), each of the variable that receives the projection", stores), bad+": that branch returns the full stored document (and accepts projections that should be rejected)")
+	}
+	r.guard(n, 5, "driver methods that apply a projection")
+}
+
+// ---- IDX-9: multi-key index maintenance visits every tuple -------------------------------
+
+func init() {
+	register(&Rule{ID: "IDX-9", Doc: "multi-key entries are added and removed completely: in bsonkit.Index.Add and Index.Remove the loop that calls btree Set / Delete for the document's tuples has no early exit (no return or break inside it) - equal tuples of one document (an array holding the same value twice) collapse to one entry, so a missed Delete on a later tuple is normal and must not abort the removal", Run: ruleIdx9})
+	register(&Rule{ID: "TTL-2", Doc: "an expiry pass publishes what it deleted: in Transaction.Expire the counter that decides whether the cloned catalog is installed accumulates over all namespaces (every update inside the namespace loop is counter + something), so deletions in one namespace are not forgotten when a later namespace has nothing to expire", Run: ruleTTL2})
+}
+
+func ruleIdx9(c *Ctx, r *Reporter) {
+	n := 0
+	for _, it := range [][2]string{{"Index.Add", "Set"}, {"Index.Remove", "Delete"}} {
+		fn := c.lookupSSA(pkgBsonkit, it[0])
+		if fn == nil {
+			r.bad("anchor:bsonkit."+it[0], "-", "not found")
+			continue
+		}
+		var call ssa.CallInstruction
+		allInstrs(fn, func(in ssa.Instruction) {
+			if ci, ok := in.(ssa.CallInstruction); ok {
+				if f := calleeObj(ci.Common()); f != nil && f.Name() == it[1] && f.Pkg() != nil && strings.Contains(f.Pkg().Path(), "btree") {
+					call = ci
+				}
+			}
+		})
+		key := "bsonkit." + it[0] + ":every tuple is visited"
+		if call == nil {
+			r.bad(key, c.pos(fn.Pos()), "no btree."+it[1]+" call")
+			continue
+		}
+		hdr := innermostLoopHeader(call.Block())
+		if hdr == nil {
+			r.bad(key, c.pos(call.Pos()), "btree."+it[1]+" is not called in a loop over the document's tuples")
+			continue
+		}
+		n++
+		// body: blocks dominated by the body entry (lexically inside the loop)
+		var entry *ssa.BasicBlock
+		for _, s := range hdr.Succs {
+			if s == call.Block() || s.Dominates(call.Block()) {
+				entry = s
+			}
+		}
+		bad := ""
+		if entry != nil {
+			for _, b := range fn.Blocks {
+				if !(b == entry || entry.Dominates(b)) {
+					continue
+				}
+				last := b.Instrs[len(b.Instrs)-1]
+				if _, ok := last.(*ssa.Return); ok && bad == "" {
+					bad = fmt.Sprintf("a return at %s inside the loop", c.pos(last.Pos()))
+				}
+				for _, s := range b.Succs {
+					if s != hdr && !(s == entry || entry.Dominates(s)) && bad == "" {
+						bad = "a break out of the loop"
+					}
+				}
+			}
+		}
+		r.check(bad == "", key, c.pos(call.Pos()), "the loop over the tuples has no early exit", bad+" ends the maintenance before all tuples were handled: a document whose array holds the same value twice cannot be removed (the second Delete misses), and everything that must remove it - update, delete, TTL expiry - fails")
+	}
+	r.guard(n, 2, "tuple loops in bsonkit.Index.Add/Remove")
+}
+
+func ruleTTL2(c *Ctx, r *Reporter) {
+	fn := c.lookupSSA(pkgLungo, "Transaction.Expire")
+	catF := c.field(pkgLungo, "Transaction", "catalog")
+	if fn == nil || catF == nil {
+		r.bad("anchor:Transaction.Expire", "-", "not found")
+		return
+	}
+	// the store of t.catalog and the test that guards it
+	var pub *ssa.Store
+	allInstrs(fn, func(in ssa.Instruction) {
+		if st, ok := in.(*ssa.Store); ok {
+			if fa, ok := st.Addr.(*ssa.FieldAddr); ok && structFieldOf(fa) == catF {
+				pub = st
+			}
+		}
+	})
+	if pub == nil {
+		r.bad("Expire:publish", c.pos(fn.Pos()), "Expire never stores t.catalog")
+		return
+	}
+	var guard *ssa.If
+	for b := pub.Block(); b != nil && guard == nil; b = b.Idom() {
+		for _, p := range b.Preds {
+			if iff, ok := p.Instrs[len(p.Instrs)-1].(*ssa.If); ok && p.Succs[0] == b && len(b.Preds) == 1 {
+				guard = iff
+			}
+		}
+	}
+	if guard == nil {
+		r.bad("Expire:publish guard", c.pos(pub.Pos()), "the store of t.catalog is not guarded by a test")
+		return
+	}
+	bo, ok := guard.Cond.(*ssa.BinOp)
+	if !ok {
+		r.unk("Expire:publish guard", c.pos(guard.Pos()), "the guard is not a comparison")
+		return
+	}
+	ph, ok := bo.X.(*ssa.Phi)
+	if !ok {
+		r.bad("Expire:deletion counter", c.pos(guard.Pos()), "the guard does not test a counter that is carried through the namespace loop")
+		return
+	}
+	// every incoming value of the counter phi (transitively through phis) is 0 at entry, the phi itself, or phi + x
+	bad := ""
+	adds := 0
+	seen := map[ssa.Value]bool{}
+	var visit func(v ssa.Value)
+	visit = func(v ssa.Value) {
+		if seen[v] {
+			return
+		}
+		seen[v] = true
+		switch x := v.(type) {
+		case *ssa.Phi:
+			for _, e := range x.Edges {
+				visit(e)
+			}
+		case *ssa.Const:
+			if k, ok := constInt(x); !ok || k != 0 {
+				bad = "the counter is set to a non-zero constant"
+			}
+		case *ssa.BinOp:
+			carried := func(y ssa.Value) bool {
+				_, isPhi := y.(*ssa.Phi)
+				return isPhi && seen[y]
+			}
+			if x.Op == token.ADD && (carried(x.X) || carried(x.Y)) {
+				adds++
+				return
+			}
+			bad = fmt.Sprintf("the counter is assigned %s at %s, which does not include its previous value", x.Op, c.pos(x.Pos()))
+		default:
+			bad = fmt.Sprintf("the counter is overwritten at %s with a value that does not include its previous value", c.pos(v.Pos()))
+		}
+	}
+	visit(ph)
+	if adds == 0 && bad == "" {
+		bad = "the counter is never increased"
+	}
+	r.check(bad == "", "Expire:deletion counter accumulates", c.pos(guard.Pos()), fmt.Sprintf("%d update(s), each counter + n", adds), bad+": when the namespace visited last has nothing to expire the pass discards the deletions (and delete events) of all other namespaces")
+}
+
+// ---- PANIC-6: trimming both ends of a string needs both shape tests -----------------------
+
+func init() {
+	register(&Rule{ID: "PANIC-6", Doc: "a string is cut at both ends only after both ends were checked: every slice expression s[a : len(s)-b] with constants a, b > 0 in the repository is dominated by the success of strings.HasPrefix(s, p) and strings.HasSuffix(s, q) with len(p) >= a, len(q) >= b and p, q unable to overlap (or by a length test len(s) >= a+b); with only one of them a short input such as \"$]\" makes the bounds cross and the slice panics", Run: rulePanic6})
+	register(&Rule{ID: "LOG-5", Doc: "$push records element-wise changes only for an append at the end: in the function registered as $push the Changes.Record calls whose path ends in a computed index are dominated by the true edge of an equality between the insertion position and len(original array); an insertion elsewhere shifts elements, so only the whole array describes the change", Run: ruleLog5})
+}
+
+func rulePanic6(c *Ctx, r *Reporter) {
+	n := 0
+	for _, fn := range c.repoFuncs() {
+		allInstrs(fn, func(in ssa.Instruction) {
+			sl, ok := in.(*ssa.Slice)
+			if !ok || sl.Low == nil || sl.High == nil {
+				return
+			}
+			a, okA := constInt(sl.Low)
+			if !okA || a <= 0 {
+				return
+			}
+			hb, ok := sl.High.(*ssa.BinOp)
+			if !ok || hb.Op != token.SUB {
+				return
+			}
+			b, okB := constInt(hb.Y)
+			lc, okL := hb.X.(*ssa.Call)
+			if !okB || b <= 0 || !okL {
+				return
+			}
+			if bi, ok := lc.Call.Value.(*ssa.Builtin); !ok || bi.Name() != "len" || !(lc.Call.Args[0] == sl.X || sameSource(lc.Call.Args[0], sl.X)) {
+				return
+			}
+			n++
+			key := fmt.Sprintf("%s:slice [%d : len-%d]", funcName(fn), a, b)
+			// facts on dominating edges
+			var prefixes, suffixes []string
+			lenOK := false
+			for _, blk := range fn.Blocks {
+				iff, ok := blk.Instrs[len(blk.Instrs)-1].(*ssa.If)
+				if !ok {
+					continue
+				}
+				for i, s := range blk.Succs {
+					if len(s.Preds) != 1 || !(s == sl.Block() || s.Dominates(sl.Block())) {
+						continue
+					}
+					cond, neg := iff.Cond, i == 1
+					for {
+						if u, ok := cond.(*ssa.UnOp); ok && u.Op == token.NOT {
+							cond, neg = u.X, !neg
+							continue
+						}
+						break
+					}
+					if call, ok := cond.(*ssa.Call); ok && !neg {
+						if f := calleeObj(&call.Call); f != nil && f.Pkg() != nil && f.Pkg().Path() == "strings" && len(call.Call.Args) == 2 && (call.Call.Args[0] == sl.X || sameSource(call.Call.Args[0], sl.X)) {
+							if p, ok := constString(call.Call.Args[1]); ok {
+								switch f.Name() {
+								case "HasPrefix":
+									prefixes = append(prefixes, p)
+								case "HasSuffix":
+									suffixes = append(suffixes, p)
+								}
+							}
+						}
+					}
+				}
+			}
+			lo, _ := lenInterval(fn, func(v ssa.Value) bool { return v == sl.X || sameSource(v, sl.X) }, sl.Block())
+			if lo >= a+b {
+				lenOK = true
+			}
+			safe := lenOK
+			for _, p := range prefixes {
+				for _, q := range suffixes {
+					if int64(len(p)) < a || int64(len(q)) < b {
+						continue
+					}
+					overlap := false
+					for k := 1; k <= len(p) && k <= len(q); k++ {
+						if p[len(p)-k:] == q[:k] {
+							overlap = true
+						}
+					}
+					if !overlap {
+						safe = true
+					}
+				}
+			}
+			r.check(safe, key, c.pos(sl.Pos()), "reached only after both the prefix and the suffix test succeeded (they cannot overlap), so len(s) >= a+b", fmt.Sprintf("not dominated by both a HasPrefix (found %q) and a HasSuffix (found %q) success nor by a length test: an input shorter than %d characters that passes the remaining test makes the bounds cross and the slice panics", prefixes, suffixes, a+b))
+		})
+	}
+	r.guard(n, 1, "double-ended string cuts")
+}
+
+func ruleLog5(c *Ctx, r *Reporter) {
+	regs := readRegistries(c)
+	var fn *ssa.Function
+	for _, reg := range regs {
+		if f := reg["$push"]; f != nil {
+			fn = f
+		}
+	}
+	recF := c.lookupFunc(pkgMongokit, "Changes.Record")
+	if fn == nil || recF == nil {
+		r.bad("anchor:$push/Changes.Record", "-", "not found")
+		return
+	}
+	n := 0
+	allInstrs(fn, func(in ssa.Instruction) {
+		call, ok := in.(*ssa.Call)
+		if !ok || calleeObj(&call.Call) != recF {
+			return
+		}
+		// element-wise record: the path argument is a concatenation that involves strconv.Itoa
+		pathArg := call.Call.Args[1]
+		isElem := false
+		var walk func(v ssa.Value, d int)
+		walk = func(v ssa.Value, d int) {
+			if d > 4 {
+				return
+			}
+			switch x := v.(type) {
+			case *ssa.BinOp:
+				walk(x.X, d+1)
+				walk(x.Y, d+1)
+			case *ssa.Call:
+				if f := calleeObj(&x.Call); f != nil && f.Pkg() != nil && f.Pkg().Path() == "strconv" {
+					isElem = true
+				}
+			}
+		}
+		walk(pathArg, 0)
+		if !isElem {
+			return
+		}
+		n++
+		// a dominating true edge of  <int> == len(<array>)
+		okEq := false
+		for _, blk := range fn.Blocks {
+			iff, ok := blk.Instrs[len(blk.Instrs)-1].(*ssa.If)
+			if !ok {
+				continue
+			}
+			bo, ok := iff.Cond.(*ssa.BinOp)
+			if !ok || (bo.Op != token.EQL && bo.Op != token.NEQ) {
+				continue
+			}
+			isLen := func(v ssa.Value) bool {
+				lc, ok := v.(*ssa.Call)
+				if !ok {
+					return false
+				}
+				bi, ok := lc.Call.Value.(*ssa.Builtin)
+				return ok && bi.Name() == "len"
+			}
+			isInt := func(v ssa.Value) bool {
+				b, ok := v.Type().Underlying().(*types.Basic)
+				return ok && b.Info()&types.IsInteger != 0
+			}
+			if !((isLen(bo.X) && isInt(bo.Y)) || (isLen(bo.Y) && isInt(bo.X))) {
+				continue
+			}
+			idx := 0
+			if bo.Op == token.NEQ {
+				idx = 1
+			}
+			s := blk.Succs[idx]
+			if len(s.Preds) == 1 && (s == call.Block() || s.Dominates(call.Block())) {
+				okEq = true
+			}
+		}
+		r.check(okEq, "$push:element-wise change records", c.pos(call.Pos()), "taken only when the insertion position equals len(array)", "the element-wise records are not behind an equality of the insertion position with len(array): an insertion at the front or in the middle is recorded as an overwrite of single elements, and applying the event's updated fields to the previous document no longer yields the new one")
+	})
+	r.guard(n, 1, "element-wise Changes.Record calls in $push")
+}
+
+// ---- SCH-1: $jsonSchema keywords are evaluated independently of their order ---------------
+
+func init() {
+	register(&Rule{ID: "SCH-1", Doc: "$jsonSchema does not depend on the order of its keywords: in every method of bsonkit.Schema, inside a loop over the schema document no variable that the loop itself assigns (a value carried from one keyword to the next) is used by a computation of the same loop; modifiers such as exclusiveMinimum are collected in a loop of their own before the keywords they modify are evaluated", Run: ruleSch1})
+}
+
+func ruleSch1(c *Ctx, r *Reporter) {
+	schT := c.lookupType(pkgBsonkit, "Schema")
+	docF := c.field(pkgBsonkit, "Schema", "Doc")
+	if schT == nil || docF == nil {
+		r.bad("anchor:bsonkit.Schema", "-", "not found")
+		return
+	}
+	loops := 0
+	for i := 0; i < schT.NumMethods(); i++ {
+		fn := c.ssaFunc(schT.Method(i))
+		if fn == nil {
+			continue
+		}
+		for _, g := range withClosures(fn) {
+			for _, hdr := range g.Blocks {
+				var latches []*ssa.BasicBlock
+				for _, p := range hdr.Preds {
+					if hdr.Dominates(p) {
+						latches = append(latches, p)
+					}
+				}
+				if len(latches) == 0 {
+					continue
+				}
+				// a loop over s.Doc: some element load from the Doc field inside the loop
+				body := map[*ssa.BasicBlock]bool{hdr: true}
+				var back func(b *ssa.BasicBlock)
+				back = func(b *ssa.BasicBlock) {
+					if body[b] {
+						return
+					}
+					body[b] = true
+					for _, p := range b.Preds {
+						back(p)
+					}
+				}
+				for _, l := range latches {
+					back(l)
+				}
+				overDoc := false
+				for b := range body {
+					for _, in := range b.Instrs {
+						if ia, ok := in.(*ssa.IndexAddr); ok && isLoadOf(ia.X, docF) {
+							overDoc = true
+						}
+					}
+				}
+				if !overDoc {
+					continue
+				}
+				loops++
+				bad := ""
+				for _, in := range hdr.Instrs {
+					ph, ok := in.(*ssa.Phi)
+					if !ok {
+						break
+					}
+					if ph.Comment == "rangeindex" {
+						continue
+					}
+					// assigned in the loop: a back-edge value other than itself
+					assigned := false
+					for k, p := range hdr.Preds {
+						if hdr.Dominates(p) && ph.Edges[k] != ssa.Value(ph) {
+							assigned = true
+						}
+					}
+					if !assigned {
+						continue
+					}
+					// used in the loop by something that is not just carrying it on
+					var used ssa.Instruction
+					var visit func(v ssa.Value, seen map[ssa.Value]bool)
+					visit = func(v ssa.Value, seen map[ssa.Value]bool) {
+						if seen[v] || used != nil {
+							return
+						}
+						seen[v] = true
+						refs := v.Referrers()
+						if refs == nil {
+							return
+						}
+						for _, ref := range *refs {
+							if ref.Block() == nil || !body[ref.Block()] {
+								continue
+							}
+							if ph2, ok := ref.(*ssa.Phi); ok {
+								visit(ph2, seen)
+								continue
+							}
+							used = ref
+							return
+						}
+					}
+					visit(ph, map[ssa.Value]bool{})
+					if used != nil && bad == "" {
+						pos := used.Pos()
+						for k := len(used.Block().Instrs) - 1; k >= 0 && pos == token.NoPos; k-- {
+							pos = used.Block().Instrs[k].Pos()
+						}
+						name := ph.Comment
+						if name == "" {
+							name = ph.Name()
+						}
+						bad = fmt.Sprintf("%s is assigned by the loop over the keywords and used in the same loop at %s", name, c.pos(pos))
+					}
+				}
+				pos := token.NoPos
+				for _, in := range hdr.Instrs {
+					if in.Pos() != token.NoPos {
+						pos = in.Pos()
+					}
+				}
+				for _, p := range hdr.Preds {
+					for k := len(p.Instrs) - 1; k >= 0 && pos == token.NoPos; k-- {
+						pos = p.Instrs[k].Pos()
+					}
+				}
+				key := fmt.Sprintf("%s:keyword loop #%d is order independent", funcName(g), loops)
+				r.check(bad == "", key, c.pos(pos), "no value is carried from one keyword to the next within the loop", bad+": the result of validating a value depends on whether the modifying keyword comes before or after the keyword it modifies, so two spellings of the same schema select different documents")
+			}
+		}
+	}
+	r.guard(loops, 4, "loops over the schema document in bsonkit.Schema")
+}
+
+// ---- LOCK-11: the commit is one critical section and keeps the token to its end -----------
+
+func init() {
+	register(&Rule{ID: "LOCK-11", Doc: "a commit keeps the writer token until it has published: in Engine.Commit no non-deferred Semaphore.Release can be followed by the e.store.Store call or by the store of e.catalog (the token is given up when the function returns); otherwise the next writer begins from the catalog this commit is about to replace and one of the two acknowledged writes is lost", Run: ruleLock11})
+}
+
+func ruleLock11(c *Ctx, r *Reporter) {
+	fn := c.lookupSSA(pkgLungo, "Engine.Commit")
+	relF := c.lookupFunc(pkgDbkit, "Semaphore.Release")
+	storeF := c.field(pkgLungo, "Engine", "store")
+	catF := c.field(pkgLungo, "Engine", "catalog")
+	if fn == nil || relF == nil || storeF == nil || catF == nil {
+		r.bad("anchor:Engine.Commit", "-", "not found")
+		return
+	}
+	var targets []ssa.Instruction
+	allInstrs(fn, func(in ssa.Instruction) {
+		switch x := in.(type) {
+		case *ssa.Call:
+			if x.Call.IsInvoke() && x.Call.Method.Name() == "Store" && isLoadOf(x.Call.Value, storeF) {
+				targets = append(targets, in)
+			}
+		case *ssa.Store:
+			if fa, ok := x.Addr.(*ssa.FieldAddr); ok && structFieldOf(fa) == catF {
+				targets = append(targets, in)
+			}
+		}
+	})
+	if len(targets) < 2 {
+		r.bad("Engine.Commit:persist and publish", c.pos(fn.Pos()), "the Store call or the store of e.catalog was not found")
+		return
+	}
+	n := 0
+	allInstrs(fn, func(in ssa.Instruction) {
+		call, ok := in.(*ssa.Call) // deferred calls are *ssa.Defer and run at the exits
+		if !ok {
+			return
+		}
+		f := calleeObj(&call.Call)
+		what := ""
+		switch {
+		case f == relF:
+			what = "the writer token is released"
+		}
+		if what == "" {
+			return
+		}
+		n++
+		for _, t := range targets {
+			if instrReaches(call, t) {
+				r.bad("Engine.Commit:exclusive until published", c.pos(call.Pos()), fmt.Sprintf("%s at %s and the commit goes on to persist / publish at %s: another writer can begin in between, from the catalog this commit replaces", what, c.pos(call.Pos()), c.pos(t.Pos())))
+				return
+			}
+		}
+	})
+	defers := 0
+	allInstrs(fn, func(in ssa.Instruction) {
+		if d, ok := in.(*ssa.Defer); ok {
+			if f := calleeObj(&d.Call); f == relF {
+				defers++
+			}
+		}
+	})
+	r.ok("Engine.Commit:exclusive until published:summary", c.pos(fn.Pos()), fmt.Sprintf("%d inline and %d deferred token release sites examined", n, defers))
+	r.guard(n+defers, 1, "token release sites in Engine.Commit")
 }
